@@ -47,6 +47,11 @@ type Scenario struct {
 	Stderr   string
 	Output   []byte
 	WallS    float64
+	// second run with the first output left in place (in-package destinations only)
+	RegenRan  bool
+	RegenExit int
+	Regen     []byte
+	RegenErr  string
 }
 
 func (s *Scenario) flagString() string {
@@ -153,6 +158,10 @@ func scenarios(tier string) (out []*Scenario) {
 	add(Scenario{Src: "kfnames", Args: []string{"KFD11"}, OnlyProps: []string{"C13"}})
 	add(Scenario{Src: "kfcons", Args: []string{"KFD17"}, OnlyProps: []string{"C09"}})
 	add(Scenario{Src: "kfcons", Args: []string{"KFD18"}, OnlyProps: []string{"C09"}})
+	add(Scenario{Src: "kfalias", Args: []string{"KFD13"}, OnlyProps: []string{"C11"}})
+	add(Scenario{Src: "kfalias", Args: []string{"KFD19"}, OnlyProps: []string{"C11"}})
+	add(Scenario{Src: "kfalias", Args: []string{"KFD20"}, OnlyProps: []string{"C12"}})
+	add(Scenario{Src: "kfalias", Args: []string{"KFD15"}, OnlyProps: []string{"C15"}})
 	return out
 }
 
@@ -328,6 +337,24 @@ func (s2 *Stage2) runMoq(sc *Scenario) {
 		}
 	}
 	sc.Output, _ = os.ReadFile(sc.OutFile)
+	if sc.ExitCode != 0 || sc.PkgMode == "other" || len(sc.Output) == 0 {
+		return
+	}
+	// C15: the same command again, with the file it wrote still part of the package
+	cmd2 := exec.Command(s2.moqBin, args...)
+	cmd2.Dir = sc.Dir
+	cmd2.Env = goEnv()
+	var stderr2 bytes.Buffer
+	cmd2.Stderr = &stderr2
+	sc.RegenRan = true
+	if err := cmd2.Run(); err != nil {
+		sc.RegenExit = 1
+		sc.RegenErr = stderr2.String()
+	}
+	sc.Regen, _ = os.ReadFile(sc.OutFile)
+	if !bytes.Equal(sc.Regen, sc.Output) {
+		os.WriteFile(sc.OutFile, sc.Output, 0o644) // everything else is decided on the first output
+	}
 }
 
 func (s2 *Stage2) load() error {
@@ -499,6 +526,13 @@ func (s2 *Stage2) checkScenario(sc *Scenario) {
 	s2.tob(sc, "moq-exit-0", allStage2Props(), sc.ExitCode == 0, sc.Stderr)
 	if sc.ExitCode != 0 {
 		return
+	}
+	if sc.RegenRan {
+		why := sc.RegenErr
+		if sc.RegenExit == 0 && !bytes.Equal(sc.Regen, sc.Output) {
+			why = "second run, with the first output in place, wrote different bytes: " + firstDiff(string(sc.Output), string(sc.Regen))
+		}
+		s2.tob(sc, "regeneration-fixed-point", []string{"C15"}, sc.RegenExit == 0 && bytes.Equal(sc.Regen, sc.Output), why)
 	}
 	// type-check of the destination package (and everything else in the scenario)
 	var terrs []string
@@ -1416,4 +1450,14 @@ func (s2 *Stage2) execGenerated(mi *mockInfo, kind, method string, fn *ssa.Funct
 		s2.errs = appendUnique(s2.errs, h.name+": "+er)
 	}
 	s2.obls = append(s2.obls, e.obls...)
+}
+
+func firstDiff(a, b string) string {
+	la, lb := strings.Split(a, "\n"), strings.Split(b, "\n")
+	for i := 0; i < len(la) && i < len(lb); i++ {
+		if la[i] != lb[i] {
+			return fmt.Sprintf("line %d: %q vs %q", i+1, la[i], lb[i])
+		}
+	}
+	return fmt.Sprintf("%d vs %d lines", len(la), len(lb))
 }
